@@ -234,9 +234,13 @@ package vanguard
 //@   dispatch (io.Writer).Write: none
 //@   requires endCall(op, end, writer)
 //@   modifies #LIB
+// C03: a Connect streaming response ends with exactly one end-of-stream frame, whatever its size
 //@ func (connectStreamClientProtocol).encodeEnd
 //@   dispatch (io.Writer).Write: none
 //@   requires endCall(op, end, writer)
+//@   track frames = (connectStreamClientProtocol).encodeEnvelope
+//@   ensures[C03,C09] frames == 1
+//@   atcall[C03] (connectStreamClientProtocol).encodeEnvelope: arg(1).trailer && !arg(1).compressed && arg(1).length == blen(buffer)
 //@   modifies #LIB
 //@ func (restClientProtocol).encodeEnd
 //@   dispatch (io.Writer).Write: none
